@@ -245,4 +245,10 @@ def feature_family():
     add("ring5-out", "abx,bc,cd,de,ea->x")
     add("k4", "abc,ade,bdf,cef->")
     add("grid6", "ab,bc,ad,be,cf,def->")
+    # rank-3 operands with size-1 dimensions that survive into the output
+    add("size1-r3-lead", "xak,kb,bc->xac", {"x": 1})
+    add("size1-r3-mid", "axk,kb,bc->axc", {"x": 1})
+    add("size1-r3-right", "ak,kxb,bc->cxa", {"x": 1})
+    add("size1-r3-batch", "xak,xkb,b->xa", {"a": 1})
+    add("size1-two", "xaky,kb,bc->yxac", {"x": 1, "y": 1})
     return F
